@@ -99,6 +99,397 @@ theorem C01_preprocessF_ok (pf : Option C01.Sel) (skip : List String) (gs : Glyp
   rw [h2]; dsimp only
   exact ⟨pre, h3, hw3, by rw [hn3, hn2, hn1]⟩
 
+/-! ### 3. errors characterised: acyclic glyph sets that need not be closed
+
+`P` is a set of names every reference stays inside (`RefsIn`); an error of the decomposing pen then names a culprit that is not a
+key AND lies in `P`.  With `P n := n is not on the skip list` this locates a `KeyError` raised by a later stage of the pipeline
+at a name that was never a key of the SOURCE glyph set (and not at a glyph the skip stage removed). -/
+
+/-- every glyph of the set refers only to names satisfying `P` -/
+def RefsIn (P : String → Prop) (gs : GlyphSet) : Prop := ∀ n g, gs.get? n = some g → ∀ k ∈ g.comps, P k.base
+
+def PenErrP (P : String → Prop) (gs : GlyphSet) (e : GErr) : Prop :=
+  e = .recursion ∨ ∃ b, e = .missing b ∧ gs.get? b = none ∧ P b
+
+def PErrOne (P : String → Prop) (gs : GlyphSet) (rf nested : Bool) (fuel : Nat) : Prop :=
+  ∀ incl base t e, addComp fuel gs rf nested incl base t = .error e → P base → PenErrP P gs e
+def PErrMany (P : String → Prop) (gs : GlyphSet) (rf nested : Bool) (fuel : Nat) : Prop :=
+  ∀ incl t ks e, addComps fuel gs rf nested incl t ks = .error e → (∀ k ∈ ks, P k.base) → PenErrP P gs e
+
+theorem pErrMany_of_one (P : String → Prop) (gs : GlyphSet) (rf nested : Bool) (fuel : Nat)
+    (h1 : PErrOne P gs rf nested fuel) : PErrMany P gs rf nested fuel := by
+  intro incl t ks
+  induction ks with
+  | nil => intro e h; simp only [addComps] at h; cases h
+  | cons k ks ih =>
+    intro e h hks
+    simp only [addComps] at h
+    cases h0 : addComp fuel gs rf nested incl k.base (t.compose k.t) with
+    | error e0 => rw [h0] at h; cases h; exact h1 incl k.base _ e h0 (hks k mem_cons_self)
+    | ok d =>
+      rw [h0] at h
+      cases hr : addComps fuel gs rf nested incl t ks with
+      | error e1 => rw [hr] at h; cases h; exact ih e hr (fun k' hk' => hks k' (mem_cons_of_mem _ hk'))
+      | ok d' => rw [hr] at h; cases h
+
+theorem pErrOne_succ (P : String → Prop) (gs : GlyphSet) (hrc : RefsIn P gs) (rf nested : Bool) (fuel : Nat)
+    (h2 : PErrMany P gs rf nested fuel) : PErrOne P gs rf nested (fuel + 1) := by
+  intro incl base t e h hP
+  unfold addComp at h
+  by_cases hi : isIncluded incl base = true
+  · rw [if_pos hi] at h
+    cases hb : gs.get? base with
+    | none => rw [hb] at h; cases h; exact Or.inr ⟨base, rfl, hb, hP⟩
+    | some b =>
+      rw [hb] at h
+      dsimp only at h
+      cases hd : addComps fuel gs rf nested (inclNested nested incl) t b.comps with
+      | error e1 => rw [hd] at h; cases h; exact h2 _ t b.comps e hd (hrc base b hb)
+      | ok d => rw [hd] at h; cases h
+  · rw [if_neg hi] at h; cases h
+
+theorem pen_errP (P : String → Prop) (gs : GlyphSet) (hrc : RefsIn P gs) (rf nested : Bool) :
+    ∀ fuel, PErrOne P gs rf nested fuel ∧ PErrMany P gs rf nested fuel := by
+  intro fuel
+  induction fuel with
+  | zero =>
+    have h0 : PErrOne P gs rf nested 0 := by
+      intro incl base t e h _; simp only [addComp] at h; cases h; exact Or.inl rfl
+    exact ⟨h0, pErrMany_of_one P gs rf nested 0 h0⟩
+  | succ n ih =>
+    have h1 := pErrOne_succ P gs hrc rf nested n ih.2
+    exact ⟨h1, pErrMany_of_one P gs rf nested (n + 1) h1⟩
+
+/-- what the pen passes through stays inside `P` -/
+def POutOne (P : String → Prop) (gs : GlyphSet) (rf nested : Bool) (fuel : Nat) : Prop :=
+  ∀ incl base t D, addComp fuel gs rf nested incl base t = .ok D → P base → ∀ k ∈ D.comps, P k.base
+def POutMany (P : String → Prop) (gs : GlyphSet) (rf nested : Bool) (fuel : Nat) : Prop :=
+  ∀ incl t ks D, addComps fuel gs rf nested incl t ks = .ok D → (∀ k ∈ ks, P k.base) → ∀ k ∈ D.comps, P k.base
+
+theorem pOutMany_of_one (P : String → Prop) (gs : GlyphSet) (rf nested : Bool) (fuel : Nat)
+    (h1 : POutOne P gs rf nested fuel) : POutMany P gs rf nested fuel := by
+  intro incl t ks
+  induction ks with
+  | nil => intro D hD _ k hk; simp only [addComps] at hD; cases hD; cases hk
+  | cons k0 ks ih =>
+    intro D hD hks k hk
+    simp only [addComps] at hD
+    cases h0 : addComp fuel gs rf nested incl k0.base (t.compose k0.t) with
+    | error e => rw [h0] at hD; cases hD
+    | ok d =>
+      rw [h0] at hD
+      cases hr : addComps fuel gs rf nested incl t ks with
+      | error e => rw [hr] at hD; cases hD
+      | ok d' =>
+        rw [hr] at hD
+        have hD' := Except.ok.inj hD
+        subst hD'
+        simp only [Drawn.append, mem_append] at hk
+        rcases hk with hk | hk
+        · exact h1 incl k0.base _ d h0 (hks k0 mem_cons_self) k hk
+        · exact ih d' hr (fun k' hk' => hks k' (mem_cons_of_mem _ hk')) k hk
+
+theorem pOutOne_succ (P : String → Prop) (gs : GlyphSet) (hrc : RefsIn P gs) (rf nested : Bool) (fuel : Nat)
+    (h2 : POutMany P gs rf nested fuel) : POutOne P gs rf nested (fuel + 1) := by
+  intro incl base t D hD hp k hk
+  unfold addComp at hD
+  by_cases hi : isIncluded incl base = true
+  · rw [if_pos hi] at hD
+    cases hb : gs.get? base with
+    | none => rw [hb] at hD; cases hD
+    | some b =>
+      rw [hb] at hD
+      dsimp only at hD
+      cases hd : addComps fuel gs rf nested (inclNested nested incl) t b.comps with
+      | error e => rw [hd] at hD; cases hD
+      | ok d =>
+        rw [hd] at hD
+        have hD' := Except.ok.inj hD
+        subst hD'
+        exact h2 _ t b.comps d hd (hrc base b hb) k hk
+  · rw [if_neg hi] at hD
+    have hD' := Except.ok.inj hD
+    subst hD'
+    simp only [mem_singleton] at hk
+    subst hk
+    exact hp
+
+theorem pen_outP (P : String → Prop) (gs : GlyphSet) (hrc : RefsIn P gs) (rf nested : Bool) :
+    ∀ fuel, POutOne P gs rf nested fuel ∧ POutMany P gs rf nested fuel := by
+  intro fuel
+  induction fuel with
+  | zero =>
+    have h0 : POutOne P gs rf nested 0 := by intro incl base t D hD; simp only [addComp] at hD; cases hD
+    exact ⟨h0, pOutMany_of_one P gs rf nested 0 h0⟩
+  | succ n ih =>
+    have h1 := pOutOne_succ P gs hrc rf nested n ih.2
+    exact ⟨h1, pOutMany_of_one P gs rf nested (n + 1) h1⟩
+
+/-- **the error of `decomposeCompositeGlyph` on an ACYCLIC set, located**: it is `KeyError b` for a `b` that is no key and
+    belongs to every reference-closed name set `P` containing the glyph's own references. -/
+theorem decomposeGlyph_errorP (P : String → Prop) (gs : GlyphSet) (rank : String → Nat) (hr : Ranked gs rank)
+    (hrc : RefsIn P gs) (nested : Bool) (incl : Option (List String)) (g : Glyph) (e : GErr)
+    (hg : ∀ k ∈ g.comps, P k.base) (h : decomposeGlyph gs nested incl g = .error e) :
+    ∃ b, e = .missing b ∧ gs.get? b = none ∧ P b := by
+  have h' := h
+  unfold decomposeGlyph at h
+  cases hd : addComps (gs.length + 1) gs true nested incl Affine.id g.comps with
+  | ok d => rw [hd] at h; cases h
+  | error e1 =>
+    rw [hd] at h
+    cases h
+    rcases (pen_errP P gs hrc true nested (gs.length + 1)).2 incl Affine.id g.comps e hd hg with rfl | hm
+    · rcases decomposeGlyph_error gs nested incl g _ h' with ⟨_, hno⟩ | ⟨b, hb, _⟩
+      · exact absurd ⟨rank, hr⟩ hno
+      · cases hb
+    · exact hm
+
+/-- the components left by `decomposeCompositeGlyph` stay inside `P` -/
+theorem decomposeGlyph_refsP (P : String → Prop) (gs : GlyphSet) (hrc : RefsIn P gs) (nested : Bool)
+    (incl : Option (List String)) (g g' : Glyph) (hg : ∀ k ∈ g.comps, P k.base)
+    (h : decomposeGlyph gs nested incl g = .ok g') : ∀ k ∈ g'.comps, P k.base := by
+  unfold decomposeGlyph at h
+  cases hd : addComps (gs.length + 1) gs true nested incl Affine.id g.comps with
+  | error e => rw [hd] at h; cases h
+  | ok d =>
+    rw [hd] at h
+    have h' := Except.ok.inj h
+    subst h'
+    exact (pen_outP P gs hrc true nested (gs.length + 1)).2 incl Affine.id g.comps d hd hg
+
+theorem refsIn_set (P : String → Prop) (gs : GlyphSet) (hrc : RefsIn P gs) (n : String) (g g' : Glyph)
+    (hget : gs.get? n = some g) (hp : ∀ k ∈ g'.comps, P k.base) : RefsIn P (gs.set n g') := by
+  intro m h' hm k hk
+  rw [get?_set gs n m g g' hget] at hm
+  by_cases e : m = n
+  · rw [if_pos e] at hm; have := Option.some.inj hm; subst this; exact hp k hk
+  · rw [if_neg e] at hm; exact hrc m h' hm k hk
+
+theorem get?_none_of_names {a b : GlyphSet} (h : a.names = b.names) (n : String) (ha : a.get? n = none) :
+    b.get? n = none := by
+  have := present_of_names_eq h n
+  unfold Present at this
+  rw [ha] at this
+  cases hb : b.get? n with
+  | none => rfl
+  | some g => rw [hb] at this; simp at this
+
+/-- a step that fails only if `decomposeCompositeGlyph` fails, with that error -/
+def DecompFails (step : FState → Glyph → Except GErr (FState × Bool)) : Prop :=
+  ∀ st g e, step st g = .error e → ∃ nested incl, decomposeGlyph st.gs nested incl g = .error e
+
+theorem decomposeStep_fails : DecompFails decomposeStep := by
+  intro st g e h
+  unfold decomposeStep at h
+  by_cases he : g.comps.isEmpty = true
+  · rw [if_pos he] at h; cases h
+  · rw [if_neg he] at h
+    cases hd : decomposeGlyph st.gs true none g with
+    | error e1 => rw [hd] at h; cases h; exact ⟨true, none, hd⟩
+    | ok g' => rw [hd] at h; cases h
+
+theorem skipExportStep_fails (skip : List String) : DecompFails (skipExportStep skip) := by
+  intro st g e h
+  unfold skipExportStep at h
+  by_cases he : (g.comps.isEmpty || !(g.comps.any (fun k => skip.contains k.base))) = true
+  · rw [if_pos he] at h; cases h
+  · rw [if_neg he] at h
+    cases hd : decomposeGlyph st.gs false (some skip) g with
+    | error e1 => rw [hd] at h; cases h; exact ⟨false, some skip, hd⟩
+    | ok g' => rw [hd] at h; cases h
+
+/-- **a decomposing filter run on an ACYCLIC set with distinct keys (closed or not)**: it returns a result (same keys, same
+    acyclicity witnesses, references still inside `P`), or it raises `KeyError b` for a `b ∈ P` that is not a key.  Never a
+    fuel error, never `recursion` / `cyclic` / `assertion`. -/
+theorem runFilter_decomp_res (P : String → Prop) (step : FState → Glyph → Except GErr (FState × Bool))
+    (hd : IsDecompStep step) (hf : DecompFails step) (incl : String → Bool) (gs : GlyphSet) (rank : String → Nat)
+    (hr : Ranked gs rank) (hn : Named gs) (hnd : gs.names.Nodup) (hrc : RefsIn P gs) :
+    (∃ st, runFilter step incl gs = .ok st ∧ Keeps gs st.gs ∧ RefsIn P st.gs) ∨
+    (∃ b, runFilter step incl gs = .error (.missing b) ∧ gs.get? b = none ∧ P b) := by
+  have := runFilter_res step incl (fun gs' => Keeps gs gs' ∧ RefsIn P gs')
+    (fun e => ∃ b, e = .missing b ∧ gs.get? b = none ∧ P b) gs rank hr hn hnd
+    (fun gs' h => h.1.2.1) (fun gs' h => h.1.2.2)
+    (by
+      intro st g hi hget _
+      cases hs : step st g with
+      | ok res =>
+        obtain ⟨st', r⟩ := res
+        left
+        refine ⟨st', r, rfl, ?_⟩
+        rcases hd st g st' r hs with e | ⟨nested, incl', g', hdec, e⟩
+        · rw [e]; exact hi
+        · rw [e]
+          exact ⟨hi.1.set g.name g g' hget (decomposeGlyph_name st.gs nested incl' g g' hdec)
+              (fun r hr' => decomposeGlyph_rank st.gs r hr' nested incl' g g' (r g.name) (hr' g.name g hget) hdec),
+            refsIn_set P st.gs hi.2 g.name g g' hget
+              (decomposeGlyph_refsP P st.gs hi.2 nested incl' g g' (hi.2 g.name g hget) hdec)⟩
+      | error e =>
+        right
+        obtain ⟨nested, incl', hdec⟩ := hf st g e hs
+        obtain ⟨b, rfl, hb, hP⟩ := decomposeGlyph_errorP P st.gs rank (hi.1.1 rank hr) hi.2 nested incl' g e
+          (hi.2 g.name g hget) hdec
+        exact ⟨_, rfl, b, rfl, get?_none_of_names hi.1.2.2 b hb, hP⟩)
+    ⟨Keeps.refl hn, hrc⟩
+  rcases this with h | ⟨e, he, b, rfl, hb, hP⟩
+  · exact Or.inl h
+  · exact Or.inr ⟨b, he, hb, hP⟩
+
+/-- the skip stage on an acyclic set: a reduced set whose references avoid the skip list, or `KeyError` at a non-key -/
+theorem C01.skipStage_res (skip : List String) (gs : GlyphSet) (rank : String → Nat)
+    (hr : Ranked gs rank) (hn : Named gs) (hnd : gs.names.Nodup) :
+    (∃ gs1, C01.skipStage skip gs = .ok gs1 ∧ (∀ r, Ranked gs r → Ranked gs1 r) ∧ Named gs1 ∧ gs1.names.Nodup ∧
+      RefsIn (fun n => skip.contains n = false) gs1 ∧
+      gs1.names = if skip.isEmpty then gs.names else gs.names.filter (fun n => !skip.contains n)) ∨
+    (∃ b, C01.skipStage skip gs = .error (.missing b) ∧ gs.get? b = none) := by
+  by_cases he : skip.isEmpty = true
+  · left
+    have e0 : skip = [] := List.isEmpty_iff.mp he
+    refine ⟨gs, by unfold C01.skipStage; rw [if_pos he], fun _ h => h, hn, hnd, ?_, by rw [if_pos he]⟩
+    intro n g _ k _
+    rw [e0]; rfl
+  · have hs : C01.skipStage skip gs = (match skipExport skip (fun _ => true) gs with
+        | .error e => .error e | .ok st => .ok st.gs) := by unfold C01.skipStage; rw [if_neg he]
+    rw [hs, if_neg he]
+    rcases runFilter_decomp_res (fun _ => True) (skipExportStep skip) (skipExportStep_isDecomp skip)
+      (skipExportStep_fails skip) (fun _ => true) gs rank hr hn hnd (fun _ _ _ _ _ => trivial) with
+      ⟨st0, h0, hk, _⟩ | ⟨b, h0, hb, _⟩
+    · left
+      have hall : ∀ n, C13.NoSkipAt skip st0.gs n := by
+        have h0' := h0
+        unfold runFilter at h0'
+        cases ho : orderedGlyphs gs with
+        | error e => rw [ho] at h0'; cases h0'
+        | ok order =>
+          rw [ho] at h0'
+          obtain ⟨_, _, hvis, _, _, hsome⟩ := C13.skipLoop skip order ⟨gs, [], []⟩ st0 h0' hn (fun x hx => (by cases hx))
+          intro n g0 hg0
+          cases hgn : gs.get? n with
+          | none => have := hsome n; rw [hg0] at this; simp only [hgn] at this; cases this
+          | some g => exact hvis n (C01.orderedGlyphs_mem gs order ho n g hgn) g0 hg0
+      have key : ∀ n g, GlyphSet.get? (st0.gs.filter (fun e => !skip.contains e.1)) n = some g →
+          st0.gs.get? n = some g ∧ skip.contains n = false := by
+        intro n g h
+        unfold GlyphSet.get? at h ⊢
+        by_cases hs : skip.contains n = true
+        · rw [C01.alookup_filter_skipped skip n hs] at h; cases h
+        · rw [C13.alookup_filter skip n (by simpa using hs)] at h; exact ⟨h, by simpa using hs⟩
+      have hnames : GlyphSet.names (st0.gs.filter (fun e => !skip.contains e.1)) =
+          gs.names.filter (fun n => !skip.contains n) := by rw [C13.names_filter, hk.2.2]
+      refine ⟨st0.gs.filter (fun e => !skip.contains e.1), by unfold skipExport; rw [h0],
+        fun r hr' => ranked_filter skip st0.gs r (hk.1 r hr'), ?_, ?_, ?_, hnames⟩
+      · intro n g h; exact hk.2.1 n g (key n g h).1
+      · rw [hnames]; exact hnd.filter _
+      · intro n g h k hkm; exact hall n g (key n g h).1 k hkm
+    · right
+      exact ⟨b, by unfold skipExport; rw [h0], hb⟩
+
+theorem C01.preStage_res (P : String → Prop) (pf : Option C01.Sel) (gs : GlyphSet) (rank : String → Nat)
+    (hr : Ranked gs rank) (hn : Named gs) (hnd : gs.names.Nodup) (hrc : RefsIn P gs) :
+    (∃ gs2, C01.preStage pf gs = .ok gs2 ∧ Keeps gs gs2 ∧ RefsIn P gs2) ∨
+    (∃ b, C01.preStage pf gs = .error (.missing b) ∧ gs.get? b = none ∧ P b) := by
+  unfold C01.preStage
+  cases pf with
+  | none => exact Or.inl ⟨gs, rfl, Keeps.refl hn, hrc⟩
+  | some s =>
+    dsimp only
+    rcases runFilter_decomp_res P decomposeStep decomposeStep_isDecomp decomposeStep_fails s.pred gs rank hr hn hnd hrc with
+      ⟨st, h, hk, hc⟩ | ⟨b, h, hb, hP⟩
+    · rw [h]; exact Or.inl ⟨st.gs, rfl, hk, hc⟩
+    · rw [h]; exact Or.inr ⟨b, rfl, hb, hP⟩
+
+theorem C01.fullStage_res (P : String → Prop) (gs : GlyphSet) (rank : String → Nat)
+    (hr : Ranked gs rank) (hn : Named gs) (hnd : gs.names.Nodup) (hrc : RefsIn P gs) :
+    (∃ pre, C01.fullStage gs = .ok pre ∧ Keeps gs pre ∧ RefsIn P pre) ∨
+    (∃ b, C01.fullStage gs = .error (.geom (.missing b)) ∧ gs.get? b = none ∧ P b) := by
+  unfold C01.fullStage
+  rcases runFilter_decomp_res P decomposeStep decomposeStep_isDecomp decomposeStep_fails (fun _ => true) gs rank hr hn hnd hrc with
+    ⟨st, h, hk, hc⟩ | ⟨b, h, hb, hP⟩
+  · rw [h]; exact Or.inl ⟨st.gs, rfl, hk, hc⟩
+  · rw [h]; exact Or.inr ⟨b, rfl, hb, hP⟩
+
+/-- **`C01_preprocessF_res`** (errors characterised): on every ACYCLIC glyph set with distinct keys equal to the glyph names -
+    closed or not -, for every restriction (or none) and every skip list, `preprocessF` either returns a glyph set (same
+    acyclicity witnesses, named, distinct keys, exactly the non-skipped keys) or raises `KeyError b` (`.geom (.missing b)`)
+    where `b` is NOT A KEY OF THE SOURCE glyph set - a dangling component reference - and the set is not closed.  There is no
+    fuel error, no `recursion`, `cyclic`, `assertion`, and no error of any other kind. -/
+theorem C01_preprocessF_res (pf : Option C01.Sel) (skip : List String) (gs : GlyphSet) (rank : String → Nat)
+    (hr : Ranked gs rank) (hn : Named gs) (hnd : gs.names.Nodup) :
+    (∃ pre, C01.preprocessF pf skip gs = .ok pre ∧ (∀ r, Ranked gs r → Ranked pre r) ∧ Named pre ∧ pre.names.Nodup ∧
+      pre.names = if skip.isEmpty then gs.names else gs.names.filter (fun n => !skip.contains n)) ∨
+    (∃ b, C01.preprocessF pf skip gs = .error (.geom (.missing b)) ∧ gs.get? b = none ∧ ¬ Closed gs) := by
+  have hnc : ∀ e, C01.preprocessF pf skip gs = .error e → ¬ Closed gs := by
+    intro e herr hc
+    obtain ⟨pre, hok, _⟩ := C01_preprocessF_ok pf skip gs rank ⟨hr, hn, hnd, hc⟩
+    rw [hok] at herr; cases herr
+  have hmain : (∃ pre, C01.preprocessF pf skip gs = .ok pre ∧ (∀ r, Ranked gs r → Ranked pre r) ∧ Named pre ∧ pre.names.Nodup ∧
+      pre.names = if skip.isEmpty then gs.names else gs.names.filter (fun n => !skip.contains n)) ∨
+      (∃ b, C01.preprocessF pf skip gs = .error (.geom (.missing b)) ∧ gs.get? b = none) := by
+    rw [C01.preprocessF_stages]
+    rcases C01.skipStage_res skip gs rank hr hn hnd with ⟨gs1, h1, hr1, hn1, hnd1, hrc1, hnames1⟩ | ⟨b, h1, hb⟩
+    · rw [h1]; dsimp only
+      -- a non-key of the reduced set that is not on the skip list is a non-key of the source set
+      have conv : ∀ b, gs1.get? b = none → skip.contains b = false → gs.get? b = none := by
+        intro b hb hs
+        cases hg : gs.get? b with
+        | none => rfl
+        | some g =>
+          exfalso
+          have hm : b ∈ gs.names := (present_iff_names gs b).mp (by unfold Present; rw [hg]; rfl)
+          have hm1 : b ∈ gs1.names := by
+            rw [hnames1]; split
+            · exact hm
+            · exact mem_filter.mpr ⟨hm, by rw [hs]; rfl⟩
+          have := (present_iff_names gs1 b).mpr hm1
+          unfold Present at this; rw [hb] at this; cases this
+      rcases C01.preStage_res _ pf gs1 rank (hr1 rank hr) hn1 hnd1 hrc1 with ⟨gs2, h2, hk2, hrc2⟩ | ⟨b, h2, hb, hP⟩
+      · rw [h2]; dsimp only
+        rcases C01.fullStage_res _ gs2 rank (hk2.1 rank (hr1 rank hr)) hk2.2.1 (hk2.nodup hnd1) hrc2 with
+          ⟨pre, h3, hk3, _⟩ | ⟨b, h3, hb, hP⟩
+        · left
+          exact ⟨pre, h3, fun r hr' => hk3.1 r (hk2.1 r (hr1 r hr')), hk3.2.1, hk3.nodup (hk2.nodup hnd1),
+            by rw [hk3.2.2, hk2.2.2, hnames1]⟩
+        · right
+          exact ⟨b, h3, conv b (get?_none_of_names hk2.2.2 b hb) hP⟩
+      · right
+        rw [h2]
+        exact ⟨b, rfl, conv b hb hP⟩
+    · right
+      rw [h1]
+      exact ⟨b, rfl, hb⟩
+  rcases hmain with h | ⟨b, h, hb⟩
+  · exact Or.inl h
+  · exact Or.inr ⟨b, h, hb, hnc _ h⟩
+
+/-- on ANY glyph set whatsoever (cyclic, duplicated keys, …) the pipeline's only errors are those of the filter machinery:
+    never `unsupported` / `valueError` -/
+theorem C01_preprocessF_error_geom (pf : Option C01.Sel) (skip : List String) (gs : GlyphSet) (e : C01.Err)
+    (h : C01.preprocessF pf skip gs = .error e) : ∃ ge, e = .geom ge := by
+  rw [C01.preprocessF_stages] at h
+  cases h1 : C01.skipStage skip gs with
+  | error e1 => rw [h1] at h; cases h; exact ⟨_, rfl⟩
+  | ok gs1 =>
+    rw [h1] at h; dsimp only at h
+    cases h2 : C01.preStage pf gs1 with
+    | error e2 => rw [h2] at h; cases h; exact ⟨_, rfl⟩
+    | ok gs2 =>
+      rw [h2] at h; dsimp only at h
+      unfold C01.fullStage at h
+      cases h3 : runFilter decomposeStep (fun _ => true) gs2 with
+      | error e3 => rw [h3] at h; cases h; exact ⟨_, rfl⟩
+      | ok st => rw [h3] at h; cases h
+
+/-- any error refutes well-formedness: with distinct keys equal to the glyph names, the set has a dangling reference or no
+    acyclicity witness at all -/
+theorem C01_preprocessF_error_not_wf (pf : Option C01.Sel) (skip : List String) (gs : GlyphSet) (e : C01.Err)
+    (hn : Named gs) (hnd : gs.names.Nodup) (h : C01.preprocessF pf skip gs = .error e) :
+    ¬ Closed gs ∨ ¬ ∃ rank, Ranked gs rank := by
+  by_cases hc : Closed gs
+  · right
+    rintro ⟨rank, hr⟩
+    obtain ⟨pre, hok, _⟩ := C01_preprocessF_ok pf skip gs rank ⟨hr, hn, hnd, hc⟩
+    rw [hok] at h; cases h
+  · exact Or.inl hc
+
 end Ufo2ft
 
 namespace Ufo2ft.C01
@@ -219,5 +610,62 @@ example (tol : Q) : ∃ pre, preprocessF (some (.excl ["other"])) ["mir"] tGs = 
       holdsOutline false tol tGs g ops = true := by
   obtain ⟨pre, h, hn, hall⟩ := C01_outline_pre_skip_total_cert tol (.excl ["other"]) ["mir"] rfl tGs tGs_cert
   exact ⟨pre, h, by rw [hn]; decide, hall⟩
+
+/-! ### non-vacuity of the error characterisation -/
+
+/-- a non-closed acyclic set: `a` refers to `nope`, which is no key -/
+def dGs : GlyphSet := [("a", ⟨"a", 500, 0, [], [⟨"nope", Affine.id⟩], []⟩), ("b", ⟨"b", 500, 0, [TotalEx.tri], [], []⟩)]
+
+theorem dGs_get (n : String) (g : Glyph) (h : dGs.get? n = some g) :
+    (n = "a" ∧ g = ⟨"a", 500, 0, [], [⟨"nope", Affine.id⟩], []⟩) ∨ (n = "b" ∧ g = ⟨"b", 500, 0, [TotalEx.tri], [], []⟩) := by
+  simp only [dGs, GlyphSet.get?, alookup] at h
+  by_cases h1 : ("a" == n) = true
+  · rw [if_pos h1] at h; left; exact ⟨(by simpa using h1 : "a" = n).symm, (Option.some.inj h).symm⟩
+  · rw [if_neg h1] at h
+    by_cases h2 : ("b" == n) = true
+    · rw [if_pos h2] at h; right; exact ⟨(by simpa using h2 : "b" = n).symm, (Option.some.inj h).symm⟩
+    · rw [if_neg h2] at h; cases h
+
+theorem dGs_hyps : Ranked dGs (fun n => if n = "a" then 1 else 0) ∧ Named dGs ∧ dGs.names.Nodup ∧ ¬ Closed dGs := by
+  refine ⟨?_, ?_, by decide, ?_⟩
+  · intro n g h k hk
+    rcases dGs_get n g h with ⟨rfl, rfl⟩ | ⟨rfl, rfl⟩
+    · simp only [mem_singleton] at hk; subst hk; decide
+    · cases hk
+  · intro n g h
+    rcases dGs_get n g h with ⟨rfl, rfl⟩ | ⟨rfl, rfl⟩ <;> rfl
+  · intro hc
+    have := hc "a" _ rfl ⟨"nope", Affine.id⟩ mem_cons_self
+    simp [Present, dGs, GlyphSet.get?, alookup] at this
+
+example (pf : Option Sel) (skip : List String) :
+    (∃ pre, preprocessF pf skip dGs = .ok pre) ∨
+    (∃ b, preprocessF pf skip dGs = .error (.geom (.missing b)) ∧ dGs.get? b = none) := by
+  rcases C01_preprocessF_res pf skip dGs _ dGs_hyps.1 dGs_hyps.2.1 dGs_hyps.2.2.1 with ⟨pre, h, _⟩ | ⟨b, h, hb, _⟩
+  · exact Or.inl ⟨pre, h⟩
+  · exact Or.inr ⟨b, h, hb⟩
+
+theorem dGs_order : orderedGlyphs dGs = .ok ["a", "b"] := by
+  have hs : ([("a", 1), ("b", 0)] : List (String × Nat)).mergeSort (fun a b => decide (b.2 ≤ a.2)) = [("a", 1), ("b", 0)] :=
+    List.mergeSort_of_pairwise (by simp)
+  simp [orderedGlyphs, depthsOf, maxComponentDepth, depthGlyph, depthComps, dGs, GlyphSet.get?, alookup]
+  rw [hs]; rfl
+
+/-- the error does occur, at the first stage that visits `a` (here: the default filter - `include=[]` visits nothing), and
+    it is the one `C01_preprocessF_res` allows: `KeyError` at a name that is no key -/
+theorem dGs_error : preprocessF (some (.incl [])) [] dGs = .error (.geom (.missing "nope")) ∧ dGs.get? "nope" = none := by
+  have h1 : runFilter decomposeStep (Sel.incl []).pred dGs = .ok ⟨dGs, [], []⟩ := by
+    unfold runFilter; rw [dGs_order]; simp [filterLoop, dGs, GlyphSet.get?, alookup, Sel.pred]
+  have h2 : runFilter decomposeStep (fun _ => true) dGs = .error (.missing "nope") := by
+    unfold runFilter; rw [dGs_order]
+    simp [filterLoop, dGs, GlyphSet.get?, alookup, decomposeStep, decomposeGlyph, addComps, addComp, isIncluded]
+  refine ⟨?_, by decide⟩
+  unfold preprocessF
+  simp only [List.isEmpty_nil, if_true]
+  rw [h1]; dsimp only; rw [h2]
+
+example : ∃ ge, Err.geom (.missing "nope") = .geom ge := C01_preprocessF_error_geom _ _ dGs _ dGs_error.1
+example : ¬ Closed dGs ∨ ¬ ∃ rank, Ranked dGs rank :=
+  C01_preprocessF_error_not_wf _ _ dGs _ dGs_hyps.2.1 dGs_hyps.2.2.1 dGs_error.1
 
 end Ufo2ft.C01
